@@ -181,6 +181,8 @@ pub struct World {
     pub outq: Vec<Vec<u8>>,
     /// content already in the response buffer handed to the next `exec_send` (consumed by it)
     pub prefill: Vec<u8>,
+    /// one Context per controller, kept for the whole run (as an interface driver would)
+    pub ctxs: Vec<Context<'static>>,
 }
 
 fn snap_reg(r: &scpi_contrib::scpi1999::EventRegister) -> RegSnap {
@@ -204,6 +206,7 @@ impl World {
             dev,
             outq: vec![Vec::new(); cfg.controllers.max(1) as usize],
             prefill: Vec::new(),
+            ctxs: (0..cfg.controllers.max(1)).map(|_| Context::new()).collect(),
         })
     }
 
@@ -220,6 +223,7 @@ impl World {
             },
             outq: vec![Vec::new(); self.cfg.controllers.max(1) as usize],
             prefill: Vec::new(),
+            ctxs: (0..self.cfg.controllers.max(1)).map(|_| Context::new()).collect(),
         }
     }
 
@@ -260,6 +264,7 @@ impl World {
             tst_code: self.dev.tst_code,
             outq: self.outq.iter().map(|o| !o.is_empty()).collect(),
             plain488: self.cfg.plain488,
+            no_mav: self.cfg.no_mav,
         }
     }
 
@@ -296,7 +301,7 @@ impl World {
     pub fn exec_send(&mut self, step: &SendStep) -> SendObs {
         let bytes = Self::message_bytes(step);
         let ctl = (step.ctl as usize).min(self.outq.len() - 1);
-        let mav = !self.outq[ctl].is_empty();
+        let mav = !self.cfg.no_mav && !self.outq[ctl].is_empty();
         let dev_before = self.snap();
         let plans = self.plans_for(&step.msg);
         let plans_given = plans.len();
@@ -307,8 +312,12 @@ impl World {
             calls_at_fire: None,
         };
         SIM_CALLS.with(|c| c.set(0));
-        let mut ctx = Context::new();
-        ctx.mav = mav;
+        // the interface driver updates MAV before handing the message over - unless it does not
+        // support MAV at all, in which case the field is never touched
+        if !self.cfg.no_mav {
+            self.ctxs[ctl].mav = mav;
+        }
+        let ctx = &mut self.ctxs[ctl];
 
         let tree = self.tree;
         let prefill = std::mem::take(&mut self.prefill);
@@ -321,14 +330,14 @@ impl World {
             FmtCfg::Vec => {
                 let mut f: Vec<u8> = prefill.clone();
                 alloc::set_armed(true);
-                let r = tree.run(&bytes, dev, &mut ctx, &mut f);
+                let r = tree.run(&bytes, dev, ctx, &mut f);
                 alloc::set_armed(false);
                 out = f;
                 r
             }
             FmtCfg::Array { cap } => {
                 alloc::set_armed(true);
-                let r = run_array(*cap, tree, &bytes, dev, &mut ctx, &prefill);
+                let r = run_array(*cap, tree, &bytes, dev, ctx, &prefill);
                 alloc::set_armed(false);
                 match r {
                     Some((r, o)) => {
@@ -350,7 +359,7 @@ impl World {
                     first_fire_call: None,
                 };
                 alloc::set_armed(true);
-                let r = tree.run(&bytes, dev, &mut ctx, &mut f);
+                let r = tree.run(&bytes, dev, ctx, &mut f);
                 alloc::set_armed(false);
                 fmt_calls = f.calls;
                 if f.fired > 0 {
